@@ -127,6 +127,19 @@ class ExternalOptimizer(Optimizer):
                 with contextlib.suppress(subprocess.TimeoutExpired):
                     process.wait(_PROCESS_TIMEOUT)
 
+                # The optimizer process is gone. If it died before an abort
+                # message could be delivered, the reason must still be raised:
+                if exception is not None:
+                    raise exception
+                # A process that was killed, or that failed, did not complete
+                # the optimization:
+                if process.returncode != 0:
+                    msg = (
+                        "External optimizer terminated abnormally, "
+                        f"exit status: {process.returncode}"
+                    )
+                    raise RuntimeError(msg)
+
     @property
     def allow_nan(self) -> bool:
         """Whether NaN is allowed.
